@@ -1025,6 +1025,12 @@ func (h *Hashgraph) DecideRoundReceived() error {
 				// it doesn't have any other-parent). If the other nodes have
 				// already processed many rounds (more than the cache-limit),
 				// then they will enter this condition upon looking for round 1.
+				// After a Reset, the rounds at or below the roundLowerBound are
+				// not in the store at all; they cannot have received a new
+				// event, so skip them instead of giving up on the event.
+				if h.roundLowerBound != nil && i <= *h.roundLowerBound {
+					continue
+				}
 				break
 			}
 
